@@ -23,7 +23,7 @@ CASE_TIMEOUT = 14400     # a depth-3 pair is ~400 CPU-s on an idle core
 RULE = ("a state is (invoke, accepted transformation history), histories explored "
         "breadth-first to the depth bound and de-duplicated on a structural "
         "fingerprint of the transformed schedule; every state that lowers is executed "
-        "on all 81 grids (xstart,xstop,ystart,ystop) in {2..4}^4; an evaluation is one "
+        "on all 25 grids (xstart=ystart=2, xstop,ystop in 1..5); an evaluation is one "
         "(state, grid) execution and is non-trivial when at least one kernel is "
         "expected to visit at least one point; distinct = distinct (invoke, "
         "fingerprint, grid)")
@@ -50,7 +50,9 @@ ASSUMPTIONS = [
     "(serial) by E1; only the multiset and per-point kernel order of visits is judged",
 ]
 
-GRIDS = sorted(itertools.product((2, 3, 4), repeat=4))
+# dl_esm_inf internal regions always start at 2 (the documented value of {start});
+# only the stop indices vary (stop = 1 gives an empty internal region).
+GRIDS = sorted((2, xs, 2, ys) for xs in (1, 2, 3, 4, 5) for ys in (1, 2, 3, 4, 5))
 NE, SW, ANY = C.OFFSETS
 INT, ALL = "go_internal_pts", "go_all_pts"
 
@@ -694,7 +696,7 @@ def _explore(case, inv, res, only_hist):
             start = cut if anc is not None else 0
             culprit = ">".join(o[0] for o in hist[start:])
         if sample is None and len(hist) == case["depth"]:
-            grid = GRIDS[40]
+            grid = GRIDS[len(GRIDS) // 2]
             sample = {"invoke": case["key"], "history": hist_text(hist),
                       "grid": list(grid), "visits": len(runs[grid])
                       if not isinstance(runs[grid], tuple) else "ub"}
